@@ -1279,5 +1279,6 @@ Lemma ex_nonvacuous :
   known_class V2 ex_ty ex_val = 0%N /\
   (exists bs, encode V2 BE ex_ty ex_val = Ok bs /\ decode ex_ty bs = Ok ex_val).
 Proof.
-  do 5 (split; [vm_compute; reflexivity|]). eexists. split; vm_compute; reflexivity.
+  do 5 (split; [vm_compute; reflexivity|]).
+  eexists. split; [vm_compute; reflexivity|vm_compute; reflexivity].
 Qed.
